@@ -195,6 +195,18 @@ func c27DoneWaitCap(s *c27Stream) time.Duration {
 	return 15 * time.Second
 }
 
+// Fresh loopback source addresses. How much a stalled peer lets a Linux sender queue depends on
+// the metrics the kernel caches per destination address (tcp_metrics: reordering, ssthresh); on a
+// busy machine the entry of 127.0.0.1 drifts (the capacity was seen to move between 29 KB and
+// 131 KB within an hour). Every stream client therefore connects from its own address out of
+// 127.64.0.0/10, for which no cached entry exists. The address is not part of the case.
+var c27SrcNonce = uint32(time.Now().UnixNano()/1000) ^ uint32(os.Getpid())<<12
+
+func c27SrcAddr(k int) *net.TCPAddr {
+	v := c27SrcNonce + uint32(k)
+	return &net.TCPAddr{IP: net.IPv4(127, 64+byte(v>>16)%60, byte(v>>8), byte(v))}
+}
+
 func c27SockOpts(rcvbuf, mss int) func(network, address string, c syscall.RawConn) error {
 	return func(network, address string, c syscall.RawConn) error {
 		return c.Control(func(fd uintptr) {
@@ -222,7 +234,7 @@ func c27StallCapacity(rcvbuf, mss int) int {
 		c, _ := ln.Accept()
 		acc <- c
 	}()
-	d := net.Dialer{Timeout: 5 * time.Second, Control: c27SockOpts(rcvbuf, mss)}
+	d := net.Dialer{Timeout: 5 * time.Second, LocalAddr: c27SrcAddr(-1), Control: c27SockOpts(rcvbuf, mss)}
 	cl, err := d.Dial("tcp", ln.Addr().String())
 	if err != nil {
 		return -1
@@ -259,9 +271,9 @@ func c27StallCapacity(rcvbuf, mss int) int {
 // c27StreamClient plays the client of one stream case and returns the bytes it received and
 // whether the stream ended with a clean EOF. firstRead reports whether the backend had already
 // finished the body when the client read its first byte.
-func c27StreamClient(addr string, c *c27Case, done <-chan struct{}) (raw []byte, eof bool, backendDoneBeforeFirstRead bool) {
+func c27StreamClient(addr string, k int, c *c27Case, done <-chan struct{}) (raw []byte, eof bool, backendDoneBeforeFirstRead bool) {
 	s := c.Stream
-	d := net.Dialer{Timeout: 10 * time.Second, Control: c27SockOpts(s.RcvBuf, s.MSS)}
+	d := net.Dialer{Timeout: 10 * time.Second, LocalAddr: c27SrcAddr(k), Control: c27SockOpts(s.RcvBuf, s.MSS)}
 	conn, err := d.Dial("tcp", addr)
 	if err != nil {
 		return nil, false, false
@@ -314,12 +326,8 @@ func c27StreamClient(addr string, c *c27Case, done <-chan struct{}) (raw []byte,
 			time.Sleep(time.Duration(s.StallMs) * time.Millisecond)
 		}
 	}
-	tw := time.Now()
 	if rerr == nil {
 		_, rerr = io.Copy(&buf, conn)
-	}
-	if d := time.Since(tw); d > 3*time.Second && os.Getenv("VERIF_C27_DEBUG") != "" {
-		fmt.Fprintf(os.Stderr, "DBG slow drain %v case=%s bytes=%d err=%v\n", d, s.key(), buf.Len(), rerr)
 	}
 	if rerr == io.EOF {
 		rerr = nil
@@ -483,14 +491,18 @@ func c27RunStream(r *vkit.Run, addr string, b *c27StreamBackend, cases []*c27Cas
 	r.Extra("stream_measured_stall_capacity_bytes_mss536_rcvbuf1024", capacity)
 	doneFirst := make([]bool, len(cases))
 	durs := make([]time.Duration, len(cases))
-	vkit.Parallel(len(idx), len(idx), func(k int) {
+	workers := len(idx)
+	if workers > 1600 {
+		workers = 1600 // thorough: bounded number of simultaneous connections (4 descriptors per case)
+	}
+	vkit.Parallel(len(idx), workers, func(k int) {
 		i := idx[k]
 		c := cases[i]
 		// spread the connection set-ups (to bfe, and from bfe to the backend) over about a second:
 		// a burst larger than the listen backlog costs SYN retransmissions and backend connect timeouts
-		time.Sleep(time.Duration(k) * 700 * time.Microsecond)
+		time.Sleep(time.Duration(k%workers) * 700 * time.Microsecond)
 		t1 := time.Now()
-		raws[i], eofs[i], doneFirst[i] = c27StreamClient(addr, c, b.doneCh(c.ID))
+		raws[i], eofs[i], doneFirst[i] = c27StreamClient(addr, k, c, b.doneCh(c.ID))
 		durs[i] = time.Since(t1)
 	})
 	slowest := idx[0]
